@@ -8,6 +8,7 @@ from .fam_sess import Sess
 from .fam_tx import Tx
 from .fam_proxy import Fsrv, Proxy, Psess
 from .fam_dmn import Dmn
+from .fam_shut import Shut
 
 PROPS = {}
 
@@ -128,6 +129,16 @@ reg(id="C05", props="Props/C05.v", proof_files=["Proofs/C05Proofs.v", "Proofs/C2
          "ring indexes up to 2^64-1, log windows with huge sizes and offsets; the harness is built with overflow checks and debug assertions and counts panics on every "
          "thread (step 'panics')",
     trusted_base=BE_TB + MEM_TB, assumptions=BE_ASSUME + DMN_ASSUME)
+SHUT_RULE = ("family shut: a real VhostUserDaemon (1 or 2 workers, exit events supplied) is brought to a position by a raw peer - idle, k bytes into a header, "
+             "header read and body pending, inside the handler (the backend's features() callback blocks on a gate), after 1..3 replies, peer closed, peer closed "
+             "k bytes into a request, invalid request, peer closed while the reply is about to be written - then shutdown is requested by 1..3 concurrent callers "
+             "(once or repeatedly, also through request_shutdown) or not at all; wait() runs under a 2.5 s watchdog and is called twice; the peer reads until "
+             "end-of-stream; a second connection is accepted and served; the daemon is dropped and the process's vring_worker threads are counted; serve() is "
+             "exercised with clean, partial-header and invalid-request peers. Judged by Spec/ShutSpec.v")
+SHUT_TB = ["hand model Model/Shutdown.v of lib.rs (daemon thread loop, ShutdownHandle, wait classification), tied by family shut",
+           "Spec/ShutSpec.v: my transcription of C16 outcomes", "socket shutdown(2)/EPIPE semantics of AF_UNIX stream sockets (kernel)"]
+reg(id="C16", props="Props/C16.v", proof_files=["Proofs/ShutBase.v", "Proofs/ShutProofs.v"], families=[Shut()], rule=SHUT_RULE, trusted_base=SHUT_TB,
+    assumptions=["a blocked recvmsg returns 0 after shutdown(SHUT_RDWR) on the same socket; sendmsg on it fails with EPIPE", "thread join returns the thread's result"])
 reg(id="BE-DEV",
     props="Props/C20.v",
     families=[Be()],
